@@ -825,6 +825,41 @@ def pinned_cases(base, linebuf):
                 s, w, e = [("w", "z[1-3]")] + [("x", "site/all")], ["z[1-3]", ("x", "^site/all")], None
             c = add("descriptors:%s:%s" % (shape, kind), d, s, w, env=e, stream="wide", shape=shape, nofile=limit)
             c["duplicates"] = k
+    # ---- I. WCOLL set to the EMPTY string, empty option arguments, an empty file name (`^`, `-^`)
+    for tag, srcs, wargs, env in (("wcoll-empty", [], [], ""), ("wcoll-empty-overridden", [("w", "w1")], ["w1"], ""),
+                                  ("wcoll-empty+exclusion-only", [("xw", "w1")], ["-w1"], ""),
+                                  ("w-empty-arg:wcoll", [], [""], "t/W"), ("w-empty-arg:noenv", [], [""], None),
+                                  ("w-only-commas:wcoll", [], [",,"], "t/W"), ("x-empty-arg:wcoll", [], [("x", "")], "t/W"),
+                                  ("w-empty-arg-then-word", [("w", "w1")], ["", "w1"], "t/W")):
+        add("empty:%s" % tag, base_disk, srcs, wargs, env=env)
+    add("empty:file-name-empty", base_disk, [("f", "")], ["^"], stream="broken")
+    add("empty:file-name-empty:after-word", base_disk, [("w", "w1"), ("f", "")], ["w1,^"], stream="broken")
+    add("empty:xfile-name-empty", base_disk, [("w", "w1"), ("x", "")], ["w1", ("x", "^")], stream="broken")
+    add("empty:file-name-empty:wcoll-set", base_disk, [("f", "")], ["^"], env="t/W", stream="broken")
+    # ---- J. include names around the reader's path buffer (fq_path[PATHBUF], PATHBUF = PATH_MAX): explicit names
+    # (`./`, absolute) of PATHBUF-2, PATHBUF-1 bytes exist and are read; a name of PATHBUF bytes or more CANNOT exist —
+    # an error, although a file sits at the name cut to PATHBUF-1 bytes (F10-LONGNAME); bare names are looked up as
+    # DIR/NAME: fine up to PATHBUF-1 bytes in all, an error beyond.  (Also: `#include` lines far longer than the line buffer.)
+    for L in (300, 1023, 1024, 1025, 2046, 2047, 2048, 2049, 3000, PATHBUF - 3, PATHBUF - 2, PATHBUF - 1):
+        rel = long_rel(L, first="./")
+        ct = "a1\n#include %s\na2\n" % rel
+        add("longname:explicit:%d" % L, {"t/A": (True, ct), rel[2:]: (True, "long%d\n" % L)},
+            [("f", "t/A")], ["^t/A"], stream="longname", fs={"t/A": (True, ct), rel: (True, "long%d\n" % L)})
+    for L in (PATHBUF, PATHBUF + 1, PATHBUF + 904):
+        rel = long_rel(PATHBUF - 1, first="./")
+        name = rel + "X" * (L - len(rel))
+        ct = "a1\n#include %s\na2\n" % name
+        add("longname:explicit-too-long:%d" % L, {"t/A": (True, ct), rel[2:]: (True, "cut-name[1-2]\n")},
+            [("f", "t/A")], ["^t/A"], stream="longname", fs={"t/A": (True, ct), rel: (True, "cut-name[1-2]\n")})
+    for total in (PATHBUF - 2, PATHBUF - 1):
+        name = long_rel(total - 2)                       # looked up as t/NAME
+        ct = "a1\n#include %s\na2\n" % name
+        add("longname:bare:%d" % total, {"t/A": (True, ct), "t/" + name: (True, "bare%d\n" % total)}, [("f", "t/A")], ["^t/A"],
+            stream="longname", fs={"t/A": (True, ct), "t/" + name: (True, "bare%d\n" % total)})
+    for total in (PATHBUF, PATHBUF + 1):
+        name = long_rel(total - 2)
+        ct = "a1\n#include %s\na2\n" % name
+        add("longname:bare-too-long:%d" % total, {"t/A": (True, ct)}, [("f", "t/A")], ["^t/A"], stream="broken", fs={"t/A": (True, ct)})
     # the streams read_wcoll opens ITSELF (one per ^file / -x ^file / WCOLL): many file sources on one command line
     tf = {"t/A": (True, "a1\n"), "t/B": (True, "b1\n")}
     for kfiles in (20, 60):
@@ -1139,7 +1174,7 @@ def case_json(c):
                                                    for p, (rd, ct) in v.items()}) for k, v in c.items()} | \
         {"full": {"disk": {p: [rd, ct] for p, (rd, ct) in c["disk"].items()},
                   "fs": {p: [rd, ct] for p, (rd, ct) in c["fs"].items()}},
-         "cmd": "cd CASEDIR && %s env -i %spdsh -Q %s" % (" ".join(SETPRIV), ("WCOLL=%s " % c["env"]) if c["env"] else "",
+         "cmd": "cd CASEDIR && %s env -i %spdsh -Q %s" % (" ".join(SETPRIV), ("WCOLL='%s' " % c["env"]) if c["env"] is not None else "",
                                                           " ".join("-%s '%s'" % opt_kind(o) for o in c["wargs"]))}
 
 
@@ -1205,8 +1240,12 @@ def judge(ctx, pdsh, cases, mode, linebuf):
             exhausted = int(mf[6]) >= TOPFD[0] - (NOFILE_DEFAULT - r["nofile"])
         res_top = out[-1]
         res_top["top_open"] = int(mf[6]) if len(mf) == 8 else None
+        longinc = long_explicit_includes(c)
         if len(mf) != 8:
             v.append(("disagreement", "model answer", ml[:200]))
+        elif longinc and LONGNAME[0] == "refused":
+            pass        # F10-LONGNAME repaired in this tree: the model (Opt/Wcoll.lean `resolve`, the code as found) cuts the
+            #             name; `Opt/WcollLongName.lean` `resolveR` refuses it, which is what the oracle below demands
         elif exhausted:
             if not (r["rc"] == 1 and r["emfile"]):
                 v.append(("disagreement", "descriptors", "model: %s streams left open by read_wcoll exhaust the limit %s, real rc=%s %s" %
@@ -1247,6 +1286,13 @@ def judge(ctx, pdsh, cases, mode, linebuf):
             if r["rc"] != 1 or r["nohosts"]:
                 bad = ("unreadable-not-error", "a source or included file is unreadable/missing but pdsh exits %s with "
                        "hosts %r" % (r["rc"], (r["hosts"] or [])[:6]))
+                if longinc and r["rc"] == 0:
+                    spt = spec_assemble(c, trunc=PATHBUF - 1)
+                    if spt[0] == "ok" and target_hosts(spt[1], spt[3], spec_regex(c)) == r["hosts"]:
+                        bad = ("include-name-truncated:explicit-name>=%d-bytes" % PATHBUF,
+                               "`#include %s...` names a file of %d bytes that cannot exist; pdsh cuts the name to %d bytes and "
+                               "targets the hosts of THAT file %r instead of failing" %
+                               (longinc[0][:40], len(longinc[0]), PATHBUF - 1, (r["hosts"] or [])[:6]))
         else:
             hosts = target_hosts(sp[1], sp[3], spec_regex(c))
             if hosts is None:
@@ -1366,6 +1412,12 @@ def run(ctx):
                 TOPFD[0] = kf
             else:
                 break
+        # F10-LONGNAME (open): an explicit include name of PATHBUF bytes or more — cut and read (as found) or refused?
+        rel = long_rel(PATHBUF - 1, first="./")
+        pl = {"stream": "probe", "disk": {"A": (True, "#include %sX\n" % rel), rel[2:]: (True, "cut1\n")}, "fs": {},
+              "sources": [], "wargs": ["^A"], "stdin": None, "env": None, "casedir": os.path.join(base, "probe")}
+        pr3 = run_real(pdsh, pl)
+        LONGNAME[0] = "truncated" if (pr3["rc"] == 0 and pr3["hosts"] == ["cut1"]) else "refused"
         if TOPFD[0]:
             mode += "+leak"         # the reader BEFORE /repo 8d15944 (the model's default is the code that closes)
         # the small expander agrees with the real parser on the generator's expressions
@@ -1417,6 +1469,7 @@ def run(ctx):
                                       "stdin": None, "env": None, "casedir": os.path.join(base, "b%d" % k), "nfiles": 1})
                         k += 1
         dist = {"streams": {}, "shapes": {}, "files": {}, "rc": {}, "reader": mode,
+                "explicit_include_name_of_%d_bytes_or_more" % PATHBUF: LONGNAME[0],
                 "read_wcoll_leaves_its_file_open(file sources that exhaust %d descriptors)" % NOFILE_DEFAULT: TOPFD[0], "max_line_ge_2047": 0,
                 "with_stdin": 0, "with_env": 0, "skips": 0, "branches": {b: 0 for b in BRANCHES}}
         distinct = set()
